@@ -35,7 +35,7 @@ pub fn gen(rng: &mut Prng, small: bool) -> Cfg {
         (rng.range(2, 8) as usize, rng.range(1, 4) as usize, *rng.pick(&[1usize, 2, 3, 50]))
     };
     if aimd {
-        Cfg { aimd, initial: max, max, min: rng.range(0, max), dep: 1, wd: rng.range(1, 2).min(max), withdrawers, depositors, ops }
+        Cfg { aimd, initial: max, max, min: rng.range(0, max), dep: *rng.pick(&[1u64, 1, 2, 3]), wd: rng.range(1, 2).min(max), withdrawers, depositors, ops }
     } else {
         Cfg { aimd, initial: rng.range(0, 3).min(max), max, min: 0, dep: 1, wd: 1, withdrawers, depositors, ops }
     }
